@@ -944,7 +944,7 @@ public:
                const char * t = s;
                while(1)  // we'll handle the NUL char in the if statement below
                {
-                  if (((*t == '\0')||(muscleIsSpace(*t)))||(GetMatchingToken(t, numCharsInToken) >= 0))
+                  if (((*t == '\0')||(muscleIsSpace(*t)))||((muscleIsAlpha(*t) == false)&&(GetMatchingToken(t, numCharsInToken) >= 0)))
                   {
                      retTok   = LexerToken(String(s, (uint32) (t-s)), false);
                      _curPos += retTok.GetValueString().Length();
